@@ -206,3 +206,58 @@ Proof.
   - repeat (apply Forall_app; split); try apply allowed_drive; repeat (apply Forall_cons || apply Forall_nil); cbn; auto.
   - vm_compute. repeat split; reflexivity.
 Qed.
+
+(* ---------- C10 / C14 refutations on the source switches set back (the code before the repairs) ---------- *)
+Definition retries_balanced_statement (src : srcp) : Prop :=
+  forall c sched, 0 <= g_res_min (summ src c sched) /\ (cleaned (final src c sched) = true -> g_res (summ src c sched) = 0).
+
+Lemma refuted_unguarded : ~ retries_balanced_statement src_unguarded.
+Proof.
+  intros H. destruct witness_unguarded as (_ & Hc & Hr & _). destruct (H cfg_breaker sched_plain) as [_ H2].
+  rewrite (H2 Hc) in Hr. discriminate Hr.
+Qed.
+Lemma refuted_keep_retry : ~ retries_balanced_statement src_keep_retry.
+Proof.
+  intros H. destruct witness_keep_retry as (_ & Hc & Hr & _). destruct (H cfg_leak sched_leak) as [_ H2].
+  rewrite (H2 Hc) in Hr. discriminate Hr.
+Qed.
+
+Definition denied_statement (src : srcp) : Prop :=
+  forall c sched, g_denied (summ src c sched) = true -> g_new_after_deny (summ src c sched) = false.
+Lemma refuted_keep_again : ~ denied_statement src_keep_again.
+Proof.
+  intros H. destruct witness_keep_again as (Hd & Hn & _). rewrite (H cfg_hc sched_plain Hd) in Hn. discriminate Hn.
+Qed.
+
+(* ---------- examples ---------- *)
+Lemma c10_example_holds :
+  wdone (final proxy_src cfg_breaker sched_plain) = true /\ cleaned (final proxy_src cfg_breaker sched_plain) = true /\
+  g_res (summ proxy_src cfg_breaker sched_plain) = 0 /\ g_res_min (summ proxy_src cfg_breaker sched_plain) = 0 /\
+  1 + g_gauge (summ proxy_src cfg_breaker sched_plain) = 0.
+Proof. vm_compute. repeat split; reflexivity. Qed.
+
+Lemma c14_example_holds :
+  let c := mk false false false RouteForward 2 true 0 [] false 0
+              [{| f_phase := 1; f_code := 403; f_verdicts := [VHijackCont] |}; {| f_phase := 1; f_code := 429; f_verdicts := [VReMatch] |}]
+              [{| sf_verdicts := [] |}] [] in
+  In c family /\ Forall allowed drive /\ g_denied (summ proxy_src c drive) = true /\
+  g_reply_kind (summ proxy_src c drive) = Some (KHijack, 403) /\ scalls (final proxy_src c drive) = [1%nat].
+Proof.
+  cbn zeta. split; [|split].
+  - unfold family. apply in_or_app. left. apply in_or_app. right. apply in_or_app. left.
+    vm_compute. repeat (first [left; reflexivity | right]).
+  - apply allowed_drive.
+  - vm_compute. repeat split; reflexivity.
+Qed.
+
+Lemma c17_example_holds :
+  let c := mk false false false RouteForward 2 true 4 [] true 1 [] [] [PoolConnFail] in
+  let sched := drive ++ [Env (EvPerTry 1)] ++ drive ++ [Env (EvUpResp 2 503 false false)] ++ drive ++ [Env (EvUpResp 3 200 false false)] ++ drive in
+  In c family /\ Forall allowed sched /\ g_new (summ proxy_src c sched) = 4%nat /\ g_ended (summ proxy_src c sched) = true.
+Proof.
+  cbn zeta. split; [|split].
+  - unfold family. apply in_or_app. left. apply in_or_app. right. apply in_or_app. right.
+    vm_compute. repeat (first [left; reflexivity | right]).
+  - repeat (apply Forall_app; split); try apply allowed_drive; repeat (apply Forall_cons || apply Forall_nil); cbn; auto.
+  - vm_compute. repeat split; reflexivity.
+Qed.
